@@ -12,8 +12,8 @@ from harness.props import creation as cr
 
 B = 16384
 METADIR = ["metas"]
-FNAMES = ["a", "b", "x.bin", "data", "é", "a b", "f"]
-DNAMES = ["d", "e", "sub", "ü"]
+FNAMES = ["a", "b", "x.bin", "data", "é", "a b", "f", "cafe\u0301.txt", "A\u030a", "\u212b.bin"]   # incl. non-NFC names
+DNAMES = ["d", "e", "sub", "ü", "u\u0308"]
 
 
 def gen_torrent(rng, tag, tier, version=None, allow_dup_names=True):
@@ -71,6 +71,10 @@ def gen_torrent(rng, tag, tier, version=None, allow_dup_names=True):
     t = {"name": name, "files": [(p, b.token()) for p, b in files], "pl": pl,
          "version": version, "single": single,
          "source": rng.choice(["own", "own", "ref"])}
+    if not single and version != 1 and t["source"] == "own" and rng.random() < 0.3:
+        # directories without files: torrentfile's v2 / hybrid creators record them as `name: {}`
+        taken = {p.split("/")[0] for p, _ in files}
+        t["emptydirs"] = [d for d in rng.sample(["0-artwork", "Aa", "_empty/inner", "zz-last"], 2) if d.split("/")[0] not in taken]
     if version == 1 and t["source"] == "own" and not single and rng.random() < 0.3:
         t["create_opts"] = {"align": True}      # v1 with BEP 47 padding entries
     return t
@@ -90,6 +94,8 @@ def write_metafile(box, t, idx):
         write_tree(stage, [(t["name"], files[0][1].bytes())])
     else:
         write_tree(os.path.join(stage, t["name"]), [(p, b.bytes()) for p, b in files])
+        for d in t.get("emptydirs", []):
+            os.makedirs(os.path.join(stage, t["name"], *d.split("/")), exist_ok=True)
     root = os.path.join(stage, t["name"])
     mdir = os.path.join(box, METADIR[0])
     os.makedirs(mdir, exist_ok=True)
@@ -114,7 +120,8 @@ def scatter(rng, box, torrents, decoys="safe", ndirs=None):
     """Place every original file somewhere in the search directories under its own file name,
     plus unrelated files and decoys. Returns (search dirs, description)."""
     ndirs = ndirs or rng.choice([1, 2, 3])
-    sdirs = [os.path.join(box, f"search{i}") for i in range(ndirs)]
+    # names that are prefixes of one another (disk1 / disk10 / disk1-extra)
+    sdirs = [os.path.join(box, n) for n in ["disk1", "disk10", "disk1-extra"][:ndirs]]
     for s in sdirs:
         os.makedirs(s)
     placed = []
